@@ -872,3 +872,24 @@ pub fn sort_rows_text(s: &str) -> String {
     v.sort();
     v.join("/")
 }
+
+/// apply the handle renaming to the node values (`n<id>` cells) of a rows token, re-sorted
+pub fn rename_rows(rows: &str, ren: &[(u64, u64)]) -> String {
+    if rows == "-" {
+        return rows.to_string();
+    }
+    let mut out: Vec<String> = rows
+        .split('/')
+        .map(|r| {
+            r.split(',')
+                .map(|c| match c.strip_prefix('n').and_then(|d| d.parse::<u64>().ok()) {
+                    Some(id) => format!("n{}", ren.iter().find(|(a, _)| *a == id).map(|(_, b)| *b).unwrap_or(id)),
+                    None => c.to_string(),
+                })
+                .collect::<Vec<_>>()
+                .join(",")
+        })
+        .collect();
+    out.sort();
+    out.join("/")
+}
